@@ -22,6 +22,9 @@ import (
 var keyPool = []string{
 	"k1-3f9a6c0d2b", "k2-77aa10c2ee", "k3-5be1d9", "k4.with~unreserved_chars-", "ab", "x", "abc", "abcd",
 	"a-very-long-api-key-0123456789-0123456789-0123456789-0123456789-0123456789",
+	// keys with white space are keys like any other: nothing is trimmed on either side (a blank key must not become
+	// the empty key, which is what every malformed credential is reduced to)
+	" ", "%20", " k1-3f9a6c0d2b", "k2-77aa10c2ee%20",
 }
 
 type keyEntry struct {
@@ -196,7 +199,7 @@ func genAuthz(w *world) *rapid.Generator[string] {
 			sort.Strings(ks)
 			key = rapid.SampledFrom(ks).Draw(t, "ckey")
 			if rapid.IntRange(0, 3).Draw(t, "exact") > 0 {
-				if rapid.Bool().Draw(t, "bearer") {
+				if rapid.Bool().Draw(t, "bearer") && validHeaderValue("Bearer "+key) {
 					return "Bearer " + key
 				}
 				cut := rapid.IntRange(0, len(key)).Draw(t, "cut")
